@@ -6,7 +6,13 @@ import (
 	"slices"
 
 	"github.com/bronlabs/bron-crypto/pkg/base"
+	"github.com/bronlabs/bron-crypto/pkg/mpc"
 	"github.com/bronlabs/bron-crypto/pkg/mpc/dkg/gennaro"
+	"github.com/bronlabs/bron-crypto/pkg/mpc/dkg/trusteddealer"
+	"github.com/bronlabs/bron-crypto/pkg/mpc/signatures/schnorr/lindell22"
+	"github.com/bronlabs/bron-crypto/pkg/mpc/signatures/schnorr/lindell22/signing"
+	schnorrpok "github.com/bronlabs/bron-crypto/pkg/proofs/dlog/schnorr"
+	vanilla "github.com/bronlabs/bron-crypto/pkg/signatures/schnorrlike/schnorr"
 	"github.com/bronlabs/bron-crypto/pkg/mpc/session"
 	"github.com/bronlabs/bron-crypto/pkg/mpc/sharing"
 	"github.com/bronlabs/bron-crypto/pkg/mpc/sharing/scheme/kw"
@@ -320,6 +326,109 @@ func c04Gennaro(env *SymEnv, pol Policy, fault gennaroFault) {
 
 var _ = slices.Sort[[]int]
 
+// c04Lindell22: one cosigner alters its partial signature (response or nonce commitment) by a
+// symbolic offset, or the nonce it opens in round 2.
+func c04Lindell22(env *SymEnv, pol Policy, quorum []sharing.ID, deviator sharing.ID, kind string) {
+	env.AssumeDrawsNonZero()
+	as, err := pol.Build()
+	if err != nil {
+		env.Reach("refused")
+		return
+	}
+	group := env.R.Group()
+	f := env.Field()
+	g := group.Generator()
+	dealt, err := trusteddealer.Deal[sG, sF](group, as, env.Reader("dealer"))
+	if err != nil {
+		env.Reach("refused")
+		return
+	}
+	shards := map[sharing.ID]*mpc.BaseShard[sG, sF]{}
+	for id, sh := range dealt.Iter() {
+		shards[id] = sh
+	}
+	delta := env.Scalar("delta")
+	env.Assume(symalg.Not(env.EqF(delta, f.Zero())))
+	applied := false
+	tamper := &lindellTamper[sG, sF]{}
+	switch kind {
+	case "psig-response", "psig-nonce-commitment":
+		tamper.PSig = func(sender sharing.ID, p *lindell22.PartialSignature[sG, sF]) *lindell22.PartialSignature[sG, sF] {
+			if sender != deviator {
+				return p
+			}
+			applied = true
+			q := &lindell22.PartialSignature[sG, sF]{Sig: p.Sig}
+			if kind == "psig-response" {
+				q.Sig.S = p.Sig.S.Add(delta)
+			} else {
+				q.Sig.R = p.Sig.R.Op(g.ScalarOp(delta))
+			}
+			return q
+		}
+	case "r2b-nonce":
+		tamper.R2B = func(sender sharing.ID, m *signing.Round2Broadcast[sG, sF, vanilla.Message]) *signing.Round2Broadcast[sG, sF, vanilla.Message] {
+			if sender != deviator {
+				return m
+			}
+			applied = true
+			return &signing.Round2Broadcast[sG, sF, vanilla.Message]{BigR: schnorrpok.NewStatement[sG, sF](m.BigR.X.Op(g.ScalarOp(delta))), BigROpening: m.BigROpening, BigRProof: m.BigRProof}
+		}
+	}
+	// exclude the measure-zero range refusals (a zero partial or aggregated response, identity nonce)
+	tamper.Pre = func(ps map[sharing.ID]*lindell22.PartialSignature[sG, sF]) {
+		sumS, sumR := f.Zero(), group.OpIdentity()
+		for _, p := range ps {
+			env.Assume(symalg.Not(env.EqF(p.Sig.S, f.Zero())))
+			env.Assume(symalg.Not(env.EqG(p.Sig.R, group.OpIdentity())))
+			sumS, sumR = sumS.Add(p.Sig.S), sumR.Op(p.Sig.R)
+		}
+		env.Assume(symalg.Not(env.EqF(sumS, f.Zero())))
+		env.Assume(symalg.Not(env.EqG(sumR, group.OpIdentity())))
+	}
+	// the deviator is never the cosigning aggregator (quorum[0])
+	res, err := runLindell22[sG, sF](env, "c04l/"+pol.Name+"/"+setName(quorum)+"/"+kind, shards, quorum, []byte("msg"), false, tamper)
+	if err != nil {
+		env.Check("C04.lindell22/setup", false, err.Error())
+		return
+	}
+	for _, e := range res.Errs {
+		if isRetryAbort(e) {
+			env.Reach("measure-zero retry abort")
+			return
+		}
+	}
+	if !applied && len(res.Errs) == 0 {
+		env.Reach("fault-not-applied")
+		return
+	}
+	env.Reach("fault-injected")
+	pfx := "C04.lindell22/" + kind
+	if kind == "r2b-nonce" {
+		// every honest cosigner must reject in round 3 (commitment opening / proof fail: class B)
+		for _, id := range quorum {
+			if id == deviator {
+				continue
+			}
+			e, rejected := res.Errs[id]
+			if env.Check(pfx+"/every honest cosigner rejects", rejected, fmt.Sprintf("cosigner %d accepted an altered nonce", id)) {
+				blameOK(env, pfx, e, deviator, true)
+			}
+		}
+		return
+	}
+	// partial-signature faults: both aggregators must refuse; the cosigning one blames the deviator
+	env.Check(pfx+"/plain aggregator refuses", res.SigErr != nil, "aggregator released a signature built from an altered partial signature")
+	if env.Check(pfx+"/cosigning aggregator refuses", res.CoSigErr != nil, "cosigning aggregator released a signature built from an altered partial signature") {
+		blameOK(env, pfx+"/cosigning", res.CoSigErr, deviator, true)
+		env.Check(pfx+"/abort demanded", base.ShouldAbort(res.CoSigErr), fmt.Sprint(res.CoSigErr))
+	}
+	if res.SigErr != nil {
+		env.Check(pfx+"/plain aggregator: abort demanded", base.ShouldAbort(res.SigErr), fmt.Sprint(res.SigErr))
+		blameOK(env, pfx+"/plain", res.SigErr, deviator, false)
+	}
+}
+
 // C04Cases builds the fault corpus.
 func C04Cases(tier string, seed int64) []Case {
 	var cases []Case
@@ -361,6 +470,26 @@ func C04Cases(tier string, seed int64) []Case {
 					c.MustReach = []string{"control-accepted"}
 				}
 				cases = append(cases, c)
+			}
+		}
+	}
+	for _, pol := range []Policy{thresholdPolicy(2, idPools[1][:3]), cnfPolicy([]int{0b001, 0b110}, idPools[0][:3])} {
+		p := pol
+		as, err := p.Build()
+		if err != nil {
+			continue
+		}
+		for _, q := range quorumsOf(as, p.IDs) {
+			Q := q
+			if len(Q) < 2 {
+				continue
+			}
+			dev := Q[len(Q)-1]
+			for _, kind := range []string{"psig-response", "psig-nonce-commitment", "r2b-nonce"} {
+				k := kind
+				cases = append(cases, Case{ID: fmt.Sprintf("C04/lindell22/%s/quorum=%s/dev=%d/%s", p.Name, setName(Q), dev, k),
+					Desc: map[string]any{"protocol": "lindell22", "policy": p.Name, "quorum": Q, "deviator": dev, "fault": k, "offset": "symbolic δ≠0"},
+					Sym:  func(e *SymEnv) { c04Lindell22(e, p, Q, dev, k) }, MustReach: []string{"fault-injected"}})
 			}
 		}
 	}
